@@ -620,6 +620,8 @@ func (fr *FnRun) checkPost(st *State, results []Val) {
 	if len(results) == 1 {
 		env["result"] = results[0]
 	}
+	// named locals keep their value at the return point (parameters and results take precedence)
+	fr.bindLocals(st, env)
 	e := &Env{st: st, old: fr.entry, vars: env, fr: fr}
 	var all []*Clause
 	if ctr != nil {
@@ -635,6 +637,13 @@ func (fr *FnRun) checkPost(st *State, results []Val) {
 			continue
 		}
 		t, evalErr := fr.tryEvalBool(en.E, e)
+		if evalErr != "" && en.E.Kind == "bin" && en.E.Op == "==>" {
+			// `A ==> B` where B mentions something that does not exist at this return point (a local
+			// not yet assigned): B counts as false here, so the obligation is that A does not hold
+			if ta, msg := fr.tryEvalBool(en.E.X, e); msg == "" {
+				t, evalErr = Not(ta), ""
+			}
+		}
 		if evalErr != "" {
 			// the clause can no longer be stated over this function (e.g. it mentions a captured
 			// variable the function no longer has): the obligation fails
